@@ -59,7 +59,7 @@ func pat(r *mon.Rand, n int) []byte { return r.Bytes(n) }
 // family is one group of constructed inputs aimed at one or more entry points.
 type family struct {
 	name   string
-	params []string                                              // one case per parameter
+	params []string                                                   // one case per parameter
 	gen    func(c *mon.Case, param string, emit func(string, []byte)) // emits (what, input)
 	calls  []builtCall
 	// callsFor, when set, replaces calls with a list that depends on the parameter
